@@ -177,6 +177,21 @@ class MonoHooks(Hooks):
                 syms, _ = alg.leaf_syms(q.poly)
                 which = [s for s in ('wmax', 'wmin') if s in syms]
                 increasing = alg.array_fn('rev', N, sym('wav', N))
+                if kwargs.get('sorter') is not None:
+                    # searched through a permutation: the table it is said to sort is what is searched
+                    srt_ = interp._as_arr(kwargs['sorter'])
+                    vals_ = None
+                    if isinstance(srt_, Arr) and srt_.ndim == 1 and srt_.mask is None and srt_.dims[0] is not None and interp.axis_len.get(srt_.dims[0]) == NW:
+                        vals_ = [alg.index_at(srt_.poly, srt_.dims[0], Poly.const(k_)) for k_ in range(NW)]
+                        vals_ = [int(v_.const_value()) for v_ in vals_] if all(v_.is_const() for v_ in vals_) else None
+                    if not (vals_ is not None and tab.dims == (N,) and alg.is_zero(tab.poly - sym('wav', N))[0]):
+                        self.bad_search.append((alg.show(tab.poly, 80), 'through the sorter %r' % (srt_,)))
+                        return Unk('searchsorted through a sorter that is not modelled')
+                    if vals_ == list(range(NW - 1, -1, -1)):
+                        tab = Arr((N,), increasing, None, tab.unit)          # the stored (decreasing) wavelengths read last to first
+                    elif vals_ != list(range(NW)):
+                        self.bad_search.append((alg.show(tab.poly, 80), 'through the sorter %r' % (vals_,)))
+                        return Unk('searchsorted through a sorter that does not sort the table')
                 if len(which) == 1 and tab.dims == (N,) and alg.is_zero(tab.poly - increasing)[0] and kwargs.get('side', 'left') == 'left':
                     return self.nb[which[0]]          # how many of the (increasing) wavelengths lie below the bound
                 if len(which) == 1 and tab.dims == (N,) and alg.is_zero(tab.poly + sym('wav', N))[0] and alg.is_zero(q.poly + sym(which[0]) * unit_atom('micron'))[0]:
